@@ -77,17 +77,7 @@ func (q mQuote) lib() *bt.FeeQuote {
 	plain := func() *bt.FeeQuote {
 		return bt.NewFeeQuote().AddQuote(bt.FeeTypeStandard, std).AddQuote(bt.FeeTypeData, data)
 	}
-	use := func(fq *bt.FeeQuote) { // what any earlier transaction would have done with the quote
-		tx := bt.NewTx()
-		_ = tx.From("11"+strings.Repeat("22", 31), 0, "76a914"+strings.Repeat("33", 20)+"88ac", 100000)
-		_ = tx.PayTo(bscript.NewFromBytes(gen.P2PKH(bytes.Repeat([]byte{0x44}, 20))), 1000)
-		_ = tx.AddOpReturnOutput([]byte("used before"))
-		_, _ = tx.IsFeePaidEnough(fq)
-		_, _ = tx.EstimateFeesPaid(fq)
-		_ = tx.Change(bscript.NewFromBytes(gen.P2PKH(bytes.Repeat([]byte{0x55}, 20))), fq)
-		_, _ = fq.Fee(bt.FeeTypeStandard)
-		_, _ = fq.Fee(bt.FeeTypeData)
-	}
+	use := quoteUsedBefore
 	var fq *bt.FeeQuote
 	pv, _ := mon.TryQuiet(func() {
 		switch (q.StdSat + 3*q.StdBytes + 5*q.DataSat + 7*q.DataBytes) % 4 {
@@ -648,3 +638,17 @@ func splitSats(r *prng.R, total uint64, k int) []uint64 {
 }
 
 func bscriptOf(b []byte) *bscript.Script { return bscript.NewFromBytes(cp(b)) }
+
+// quoteUsedBefore: what any earlier transaction would have done with the quote.
+func quoteUsedBefore(fq *bt.FeeQuote) {
+	tx := bt.NewTx()
+	_ = tx.From("11"+strings.Repeat("22", 31), 0, "76a914"+strings.Repeat("33", 20)+"88ac", 100000)
+	_ = tx.PayTo(bscript.NewFromBytes(gen.P2PKH(bytes.Repeat([]byte{0x44}, 20))), 1000)
+	_ = tx.AddOpReturnOutput([]byte("used before"))
+	_, _ = tx.IsFeePaidEnough(fq)
+	_, _ = tx.EstimateFeesPaid(fq)
+	_, _ = tx.EstimateIsFeePaidEnough(fq)
+	_ = tx.Change(bscript.NewFromBytes(gen.P2PKH(bytes.Repeat([]byte{0x55}, 20))), fq)
+	_, _ = fq.Fee(bt.FeeTypeStandard)
+	_, _ = fq.Fee(bt.FeeTypeData)
+}
